@@ -384,7 +384,11 @@ pub fn search_c20(rng: &mut Rng, thorough: bool) -> SearchResult {
         let mut all = a5::uncompact(&[0], res).unwrap();
         all.sort_unstable();
         for k in 1..=res {
-            let anc: Vec<u64> = all.iter().map(|&c| a5::cell_to_parent(c, Some(k)).unwrap()).collect();
+            let anc: Vec<u64> = all.iter().map(|&c| catch_unwind(move || a5::cell_to_parent(c, Some(k))).ok().and_then(|x| x.ok()).unwrap_or(u64::MAX)).collect();
+            if anc.iter().any(|&x| x == u64::MAX) {
+                r.viol("order", format!("res {}: an ancestor at {} could not be computed", res, k));
+                continue;
+            }
             r.evaluations += all.len() as u64;
             let mut seen: HashSet<u64> = HashSet::new();
             let mut prev = None;
@@ -425,10 +429,17 @@ pub fn search_c20(rng: &mut Rng, thorough: bool) -> SearchResult {
         r.evaluations += 1;
         r.nontrivial += 1;
         for k in 1..=res {
-            let pa = a5::cell_to_parent(a, Some(k)).unwrap();
-            let pb = a5::cell_to_parent(b, Some(k)).unwrap();
-            if pa > pb {
-                r.viol("order", format!("a={:x} < b={:x} but ancestor at {}: {:x} > {:x}", a, b, k, pa, pb));
+            let anc = |c: u64| catch_unwind(move || a5::cell_to_parent(c, Some(k))).ok().and_then(|x| x.ok());
+            match (anc(a), anc(b)) {
+                (Some(pa), Some(pb)) => {
+                    if pa > pb {
+                        r.viol("order", format!("a={:x} < b={:x} but ancestor at {}: {:x} > {:x}", a, b, k, pa, pb));
+                    }
+                }
+                _ => {
+                    r.viol("order", format!("ancestor at resolution {} of {:x} or {:x} (resolution {}) could not be computed (error or panic)", k, a, b, res));
+                    break;
+                }
             }
         }
         let d = (res + rng.range_i(1, 4) as i32).min(29);
